@@ -313,7 +313,7 @@ pub fn run(ctx: &Ctx, id: &str) -> i32 {
         report.rule = "every public operation {new, configure, read_card, begin, commit, cancel, and begin / commit / cancel while another transaction is open} is first run fault-free to number its terminal->client packets (handshake, acks, intermediate packets, clean-up exchanges included); then re-run with one fault at every position x kind {close, a regular reply followed by an immediate close (the client notices while writing its acknowledgement), garbage, NACK, foreign control field, silence, wrong serial (reversed, a prefix of the configured one padded with NUL, blank, spaces, first character only, first / last character changed, halves swapped) / bare completion (system-info reply), a well-formed Abort where the reply set has none (registration reply), and each of 7 well-formed packets (abort, completion, intermediate status, status information, print line, set-time, acknowledgement) wherever it lies outside the exchange's reply set} and with refused connection attempts; all pairs of faults for the shorter operations and sampled pairs/triples otherwise; each followed by a further operation. Also: a terminal reporting the serial in the other letter case, and 1 ms..1 s delays between and inside packets (non-faults: the operation must succeed without reconnecting). Also the terminal closing the idle connection before the operation or before the follow-up operation (the next command write fails), alone and followed by a second fault. Oracle: connection checker R1-R6 (DESIGN D.4) over the per-connection event log; R6 = after the terminal closed a connection, the operations that follow make a new connection attempt. Non-trivial = every faulty run; single faults are a duplicate-free enumeration, multi-fault runs hashed.".into();
         report.assumptions = vec!["after injecting a fault the simulated terminal is passive on that connection, so every byte recorded there afterwards was written by the client".into(), "silence during the handshake is bounded by the fix of finding D6 (otherwise those runs end at the watchdog and are attributed to C10)".into()];
     } else {
-        report.rule = "every public operation x (a) a one-shot silence at every terminal->client packet position (fault-free numbering), (b) a persistent silence at every distinct (exchange kind, packet) point incl. the handshake, (c) a connect that never resolves / always never resolves / is always refused, (d) pairs: a one-shot silence followed by a second silence / close / garbage / connect stall on the retried attempt, and silence on a slow terminal, (f) a garbage / NACK / foreign / unexpected-but-well-formed packet (or a regular reply followed by a close) at every position after which the terminal stays silent and never closes its side, (j) history independence: a persistently stalled read_card / configure takes no longer on an object that recovered from stalls in four earlier calls than on a fresh one, (i) a silence / close / garbage that creeps forward by 1-3 packets with every re-connection (each attempt gets further than the one before, none completes), (h) unsolicited bytes on the idle connection just before the operation (the first byte(s) of a packet and then nothing more with the connection kept open; a complete intermediate status), (g) the cached connection fails at once (idle close / close / NACK / garbage / reply-then-close) and every new connection is refused, stalls, or breaks at one point of its handshake (silence / close / garbage / NACK / wrong serial), (e) finite pauses of 1..61 s at every position and of 3..59 s inside the handshake of a re-connection for read_card_timeout in {0,5,15,30,56,57,58,200}; read_card_timeout 0..255 exhaustively with a terminal that stays silent for exactly its own read-card time-out and then answers 'abort 6C' 100 ms later (must be waited for: NoCardPresented); configuration extremes (password 0/999999, amount 0/10^12-1, transactions_max_num 0/usize::MAX, terminal id empty/non-numeric/8 digits, currency 0/9999). Time is tokio's paused clock. Oracle: every call returns before one virtual day and does not panic. Duplicate-free enumeration.".into();
+        report.rule = "every public operation x (a) a one-shot silence at every terminal->client packet position (fault-free numbering), (b) a persistent silence at every distinct (exchange kind, packet) point incl. the handshake, (c) a connect that never resolves / always never resolves / is always refused, (d) pairs: a one-shot silence followed by a second silence / close / garbage / connect stall on the retried attempt, and silence on a slow terminal, (f) a garbage / NACK / foreign / unexpected-but-well-formed packet (or a regular reply followed by a close) at every position after which the terminal stays silent and never closes its side, (j) history independence: a persistently stalled read_card / configure takes no longer on an object that recovered from stalls in four earlier calls than on a fresh one, (i) a silence / close / garbage that creeps forward by 1-3 packets with every re-connection (each attempt gets further than the one before, none completes), (h) unsolicited bytes on the idle connection just before the operation (the first byte(s) of a packet and then nothing more with the connection kept open; a complete intermediate status), (g) the cached connection fails at once (idle close / close / NACK / garbage / reply-then-close) and every new connection is refused, stalls, or breaks at one point of its handshake (silence / close / garbage / NACK / wrong serial), (k) random plans: a random operation under a random configuration (read_card_timeout 0..255, password, currency, amount, transactions_max_num) with one to four faults of any stalling or connection-breaking kind at random packet positions / exchange points / connection attempts / on the idle connection / creeping, now and then on a slow terminal or one that splits its packets, (e) finite pauses of 1..61 s at every position and of 3..59 s inside the handshake of a re-connection for read_card_timeout in {0,5,15,30,56,57,58,200}; read_card_timeout 0..255 exhaustively with a terminal that stays silent for exactly its own read-card time-out and then answers 'abort 6C' 100 ms later (must be waited for: NoCardPresented); configuration extremes (password 0/999999, amount 0/10^12-1, transactions_max_num 0/usize::MAX, terminal id empty/non-numeric/8 digits, currency 0/9999). Time is tokio's paused clock. Oracle: every call returns before one virtual day and does not panic. Duplicate-free enumeration.".into();
         report.assumptions = vec!["watchdog = tokio::time::timeout of one virtual day around every public call; it can only fire when the client is parked without a timer of its own or its own timers exceed a day".into(), "only a collapsed (too short) read-card timeout is judged; the effective timeout is recorded".into()];
     }
     let base_cfg = ClientCfg { max_tx: 1, currency: 826, password: 471199, pre_amount: 3100, serial: "17fd1E3c".into(), ..ClientCfg::default() };
@@ -842,6 +842,68 @@ pub fn run(ctx: &Ctx, id: &str) -> i32 {
                             );
                         }
                     }
+                }
+            }
+            // (k) random plans: a random operation under a random configuration with one to four faults of any stalling or
+            //     connection-breaking kind at random places (packet positions, exchange points, connection attempts, the idle
+            //     connection, creeping), now and then on a slow terminal or one that splits its packets
+            {
+                let n_random = if quick { 2_400 } else { 2_000_000 };
+                let mut rng = Rng::derive(seed, 0xC10_4A4D + shard as u64);
+                let cmds = [Cmd::Registration, Cmd::SystemInfo, Cmd::SetTerminalId, Cmd::Initialization, Cmd::Reservation, Cmd::PartialReversal, Cmd::PendingQuery, Cmd::PreAuthReversal, Cmd::EndOfDay, Cmd::ReadCard];
+                for _ in 0..n_random / threads {
+                    let op = *rng.pick(&OPS);
+                    let cfg = ClientCfg {
+                        read_card_timeout: match rng.below(4) {
+                            0 => *rng.pick(&[0u8, 1, 253, 254, 255]),
+                            _ => rng.byte(),
+                        },
+                        password: rng.below(1_000_000) as usize,
+                        currency: rng.below(10_000) as usize,
+                        pre_amount: *rng.pick(&[0usize, 1, 2500, 999_999_999_999]),
+                        ..base_cfg.clone()
+                    };
+                    let (mut sc, idx) = skeleton(op, &cfg);
+                    if rng.chance(1, 6) {
+                        sc.cfg.max_tx = *rng.pick(&[0usize, 1, 2, 3, 255, 65536, usize::MAX]);
+                    }
+                    let n_faults = 1 + rng.below(4) as usize;
+                    for _ in 0..n_faults {
+                        let kind = match rng.below(14) {
+                            0 | 1 | 2 => FaultKind::Silence,
+                            3 => FaultKind::Close,
+                            4 => FaultKind::Garbage,
+                            5 => FaultKind::Nack,
+                            6 => FaultKind::Foreign,
+                            7 => FaultKind::WrongSerial,
+                            8 => FaultKind::Pause(1 + rng.below(70) as u32),
+                            9 => FaultKind::CloseAfter,
+                            10 => FaultKind::Unexpected(rng.below(UNEXPECTED.len() as u64) as u8),
+                            11 => FaultKind::AbortReply,
+                            12 => FaultKind::EmptyCompletion,
+                            _ => FaultKind::Silence,
+                        };
+                        let spec = match rng.below(10) {
+                            0 | 1 | 2 => FaultSpec { call: idx, at: At::Tx(rng.below(24) as usize), kind },
+                            3 | 4 => FaultSpec { call: idx, at: At::Point(*rng.pick(&cmds), rng.below(4) as usize), kind },
+                            5 => FaultSpec { call: idx, at: At::PointOnce(*rng.pick(&cmds), rng.below(4) as usize), kind },
+                            6 => FaultSpec { call: idx, at: if rng.chance(1, 3) { At::AnyConnect } else { At::Connect(rng.below(5) as usize) }, kind: if rng.chance(1, 2) { FaultKind::ConnectStall } else { FaultKind::Refuse } },
+                            7 if op != Op::New => FaultSpec { call: idx, at: At::Idle, kind: if rng.chance(1, 2) { FaultKind::IdleClose } else { FaultKind::IdleBytes(rng.below(4) as u8) } },
+                            8 => FaultSpec { call: idx, at: At::Creeping { offset: rng.below(4) as usize, step: rng.below(4) as usize }, kind },
+                            _ => FaultSpec { call: idx, at: At::CreepingIn { cmd: *rng.pick(&cmds), offset: rng.below(3) as usize, step: rng.below(3) as usize }, kind },
+                        };
+                        sc.plan.faults.push(spec);
+                    }
+                    if rng.chance(1, 6) {
+                        sc.plan.delay_ms = rng.below(3_000);
+                    }
+                    if rng.chance(1, 8) {
+                        sc.plan.split_delay_ms = Some(rng.below(2_000));
+                    }
+                    sc.plan.wrong_serial_variant = rng.below(8) as u8;
+                    let label = format!("random plan: {op:?}, {:?}", sc.plan.faults.iter().map(|f| format!("{:?}@{:?}", f.kind, f.at)).collect::<Vec<_>>());
+                    run_and_judge(r, id, &sc, idx, &schema, &label, true);
+                    r.count("random_plan_runs", 1);
                 }
             }
             // configuration extremes
